@@ -10,14 +10,14 @@ CHECKS = {
    category="model_checking", engine="A explicit-state product + B small-scope strings",
    technique="explicit-state BFS of the product (real scanner x reference PDA) with validated state merging; exhaustive string enumeration",
    text="All reachable product states of the real JSON scanner (driven byte-wise through a verif hook) and a reference RFC 8259 pushdown automaton are enumerated for nesting <= 4 (quick) / 6 (thorough) in both modes; in each state the public Document.Check verdict of the state's shortest history must equal the reference verdict, so acceptance is decided for strings of any length within the nesting bound. State merging is validated by recomputing successors of merged histories. In addition every string of <= 5 (6) symbols over the 30-class alphabet is compared three ways, and every single-symbol edit and truncation of a corpus of structured long texts (deep nesting, 4 KiB strings, long numerals). Every product-state text and byte-sweep text is also checked on documents with a history (after a first Check, after Len, after 1, 2, 3, 5 lexemes read with NextLexeme): the verdict must not depend on it; containers of n copies of 12 units for n in 1..10 and around every power of two up to 256, 300, 1000. One raw character per UTF-8 byte-class combination (and DEL) in values and keys.",
-   note="Trusted: the reference PDA (cross-checked against encoding/json on every enumerated string), the hook's control key being a bisimulation (checked on merges). Not asserted: invalid UTF-8; in trailing mode inputs where maximal munch of a top-level number has two readings.",
+   note="Trusted: the reference PDA (cross-checked against encoding/json on every enumerated string), the hook's control key being a bisimulation (checked on merges). Not asserted: invalid UTF-8; in trailing mode inputs where the maximal munch of a top-level number ends inside an incomplete number (1.x, 1e+).",
    design="4/C05"),
 }
 
 CHECKS["C19"] = dict(
    category="model_checking", engine="A explicit-state over the real maps + C controlled scheduler for the concurrent clause",
    technique="explicit-state BFS to a fixpoint of canonical heap states of the real generated maps, reference insertion-ordered map as oracle",
-   text="Breadth-first search over ALL operation sequences of the 19-operation alphabet (3 keys, 2 values, 4 predicates, failing Map callback) on the real ASTNodes, RuleASTNodes (zero value, New..., Make...) and Constraints objects until no new canonical state (order backing array incl. stale tail, len, data) appears; this covers histories of any length, not only 6. Every observer and every callback visit log is compared with a 30-line reference map in every state; merges are validated by recomputing successors. Concurrent clause (merged from the scheduler variant): all 4-tuples (2 threads x 2 ops) and triples (3 x 1) over a 12-operation alphabet (incl. MarshalJSON, Find, Has) on the three real maps from two initial states, ALL interleavings at lock points, each history checked for linearizability by brute force and by the race detector as per-execution monitor. Big maps: every real map filled with n keys (n around slice capacities up to 1025) and emptied in five ways, all observers compared after every operation.",
+   text="Breadth-first search over ALL operation sequences of the 19-operation alphabet (3 keys, 2 values, 4 predicates, failing Map callback) on the real ASTNodes, RuleASTNodes (zero value, New..., Make...) and Constraints objects until no new canonical state (order backing array incl. stale tail, len, data) appears; this covers histories of any length, not only 6. Every observer and every callback visit log is compared with a 30-line reference map in every state; merges are validated by recomputing successors. Concurrent clause (merged from the scheduler variant): all 4-tuples (2 threads x 2 ops) and triples (3 x 1) over a 12-operation alphabet (incl. MarshalJSON, Find, Has) on the three real maps from two initial states, ALL interleavings at lock points, each history checked for linearizability by brute force and by the race detector as per-execution monitor. Big maps: every real map filled with n keys (n around slice capacities up to 1025) and emptied in five ways, all observers compared after every operation. Every sequential history runs in its own goroutine: a call that never returns (leaked lock) is a violation.",
    note="Trusted: the reference map; the state key is validated as a bisimulation on every merge. Map's behaviour on callback error (earlier entries stay updated) is taken from the generated code's documented contract.",
    design="4/C19")
 CHECKS["C10"] = dict(
@@ -50,7 +50,7 @@ CHECKS["C02"] = dict(
 CHECKS["C08"] = dict(
    category="exploration", engine="B small-scope enumeration, permutation-invariance + reference predicate",
    technique="exhaustive enumeration of rule subsets x parameter variants x ALL permutations; metamorphic order-invariance plus three-valued reference applicability predicate",
-   text="10 node kinds x 3 positions x all subsets of <= 3 (thorough 4) of 18 rule names plus an unknown name and duplicated names x parameter variants, each compiled in every permutation and under both key-optionality configurations (Check asked twice per object): Check's verdict must not depend on the order, and must equal the applicability/consistency predicate written from the statement wherever that predicate is decided; plus scalar examples with rule sets of <= 3 (4) names from the kind's applicable pool with boundary parameters, which supply the well-formed (accept-side) cases. The statement's exclusions inside or rule-sets (format types with length/regex rules, any with const) in every position, with accepted controls.",
+   text="10 node kinds x 3 positions x all subsets of <= 3 (thorough 4) of 18 rule names plus an unknown name and duplicated names x parameter variants, each compiled in every permutation and under both key-optionality configurations (Check asked twice per object): Check's verdict must not depend on the order, and must equal the applicability/consistency predicate written from the statement wherever that predicate is decided; plus scalar examples with rule sets of <= 3 (4) names from the kind's applicable pool with boundary parameters, which supply the well-formed (accept-side) cases. The statement's exclusions inside or rule-sets (format types with length/regex rules, any with const) in every position, with accepted controls. Empty-object parents among the allOf values.",
    note="Trusted: ref/wf predicate and ref/refv. Error codes are not compared; statement-silent combinations are Unspecified (listed in the evidence assumptions).",
    design="4/C08")
 
@@ -64,7 +64,7 @@ CHECKS["C04"] = dict(
 CHECKS["C14"] = dict(
    category="exploration", engine="B small-scope enumeration of texts x separators x trailing texts",
    technique="exhaustive product of accepted texts x separators x directive-like trailing texts; every truncation classified by the reference PDA",
-   text="Every accepted text of a corpus built from all rule-free JS-core renderings <= 3 (4) nodes in two layouts, annotated and noted variants ending in every token class, type shortcuts, enum texts and every regex token with a body <= 4 symbols over {a, \\, /, .} (acceptance decided by the reference; a rejected corpus text is a violation), followed by each of 9 separators and 11 trailing texts admitted by the statement: Len must be exactly len(S) for schema, JSON document (trailing characters allowed), enum and regex roles, on fresh objects and on objects used before (after Check/GetAST/Values/Pattern, after the document stream was read to its end); every lexically incomplete truncation must make Len fail. Separators are no blank and EVERY run of 1..3 blanks over {space, tab, LF, CRLF}. Trailing texts that themselves hold line breaks (a foreign byte, then the next line).",
+   text="Every accepted text of a corpus built from all rule-free JS-core renderings <= 3 (4) nodes in two layouts, annotated and noted variants ending in every token class, type shortcuts, enum texts and every regex token with a body <= 4 symbols over {a, \\, /, .} (acceptance decided by the reference; a rejected corpus text is a violation), followed by each of 9 separators and 11 trailing texts admitted by the statement: Len must be exactly len(S) for schema, JSON document (trailing characters allowed), enum and regex roles, on fresh objects and on objects used before (after Check/GetAST/Values/Pattern, after the document stream was read to its end); every lexically incomplete truncation must make Len fail. Separators are no blank and EVERY run of 1..3 blanks over {space, tab, LF, CRLF}. Trailing texts that themselves hold line breaks (a foreign byte, then the next line). Texts with multi-byte characters in every role.",
    note="Trusted: reference PDA for incompleteness. Not generated: trailing text that could continue S; blank-only inputs.",
    design="4/C14")
 
@@ -78,7 +78,7 @@ CHECKS["C06"] = dict(
 CHECKS["C18"] = dict(
    category="exploration", engine="B small-scope enumeration, named-vs-inline differential",
    technique="exhaustive enumeration of enum value lists x layouts and of all compilable regex sources up to 4/5 symbols; metamorphic named == inline == regexp",
-   text="All enum value lists of <= 3 (4) items over 10 literals (duplicates, a string spelling a float, escapes) in 9 layouts (incl. empty comments): the named rule and the inline list must give identical verdicts on 14 probes, duplicates must make the rule's Check fail, Values()/GetAST() must list the literals in source order; one rule object referenced twice in a schema and added to a second schema must behave like the inline list and be unchanged afterwards. All strings <= 4 (5) over a 16-symbol regex alphabet that regexp.Compile accepts: the regex type, the inline {regex} rule and regexp.MatchString must agree on all 156 probe strings <= 3 over {a,b,/,\",\\}; Example() matches the pattern; Len equals the /P/ token length with trailing text. Enum literals include floats with zero digits in the fraction (1.50, 20.05, -0.100). 315 patterns whose matches begin or end with blanks.",
+   text="All enum value lists of <= 3 (4) items over 10 literals (duplicates, a string spelling a float, escapes) in 9 layouts (incl. empty comments): the named rule and the inline list must give identical verdicts on 14 probes, duplicates must make the rule's Check fail, Values()/GetAST() must list the literals in source order; one rule object referenced twice in a schema and added to a second schema must behave like the inline list and be unchanged afterwards. All strings <= 4 (5) over a 16-symbol regex alphabet that regexp.Compile accepts: the regex type, the inline {regex} rule and regexp.MatchString must agree on all 156 probe strings <= 3 over {a,b,/,\",\\}; Example() matches the pattern; Len equals the /P/ token length with trailing text. Enum literals include floats with zero digits in the fraction (1.50, 20.05, -0.100). 315 patterns whose matches begin or end with blanks. Patterns holding characters that mean something to formats, JSON and the schema language (%, #, //, @, quotes).",
    note="Trusted: Go regexp. The third-party example generator ignores anchors, so 'Example matches P' is asserted only for patterns without inner anchors.",
    design="4/C18")
 
@@ -92,7 +92,7 @@ CHECKS["C09"] = dict(
 CHECKS["C03"] = dict(
    category="exploration", engine="B small-scope enumeration of type environments x root constructs x documents",
    technique="exhaustive enumeration of four construct families (type references/or, allOf, additionalProperties, key shortcuts) x all small documents against a three-valued set-semantics reference, plus union differential",
-   text="All ordered pairs of user types from a 10-body pool plus a derived third type (alias, or, nullable alias, nullable or-alias) x 15 root constructs (also rule-sets with nullable next to a type reference) x nullable x 6 positions x all documents <= 3 nodes (all arrays <= 3 elements for array positions); 9 allOf configurations x 4 additionalProperties settings x both configs x all 1024 objects over 5 keys; 13 additionalProperties settings x shapes x 150 objects; 5 key types x optionality x layouts x all objects with <= 3 members over 6 keys. The library verdict must equal the reference union/conjunction semantics and verdict(@A|@B) must equal verdict(@A) or verdict(@B). Nested extension: an extending object owning (directly, as array item, two levels down, through a user type or an heir) a property whose object extends types itself, 5 inner bodies x 7 shapes x all member combinations. Document keys spelled like type names (@K) and examples holding a shortcut next to a property of the same spelling.",
+   text="All ordered pairs of user types from a 10-body pool plus a derived third type (alias, or, nullable alias, nullable or-alias) x 15 root constructs (also rule-sets with nullable next to a type reference) x nullable x 6 positions x all documents <= 3 nodes (all arrays <= 3 elements for array positions); 9 allOf configurations x 4 additionalProperties settings x both configs x all 1024 objects over 5 keys; 13 additionalProperties settings x shapes x 150 objects; 5 key types x optionality x layouts x all objects with <= 3 members over 6 keys. The library verdict must equal the reference union/conjunction semantics and verdict(@A|@B) must equal verdict(@A) or verdict(@B). Nested extension: an extending object owning (directly, as array item, two levels down, through a user type or an heir) a property whose object extends types itself, 5 inner bodies x 7 shapes x all member combinations. Document keys spelled like type names (@K) and examples holding a shortcut next to a property of the same spelling. Parents that declare additionalProperties themselves (directly and one level up) under every own setting of the heir.",
    note="Trusted: ref/refv. Unspecified (counted in the evidence): cardinality/precedence of shortcut matches, presence of non-optional shortcut entries, rule-less key types, integer under additionalProperties float.",
    design="4/C03")
 
@@ -120,7 +120,7 @@ CHECKS["C13"] = dict(
 CHECKS["C07"] = dict(
    category="exploration", engine="B exhaustive strings + bounded-deviation corpus edits + grammar-directed product + E construction-site enumeration; isolated memory-capped processes",
    technique="exhaustive enumeration of all short inputs, all 1-edit neighbours of a corpus and a grammar-directed product of hostile rule values through every public method; go/parser enumeration of every error construction site; process-level crash detection",
-   text="Every string of <= 4 (thorough 5) symbols over a 26-symbol schema alphabet in each role (schema, user type under 7 usages: alias, property, item, key shortcut, allOf parent, type rule, or rule; enum rule, regex type, document in 2 modes and under 4 schemas) through every public method on fresh objects and in sequence; every truncation and every single-byte deletion, insertion and substitution at every offset of all corpus files (repository testdata + generator outputs); a grammar-directed product of 7 examples x 21 rule names x 46 hostile rule values x 6 annotation positions (+ second rules in both orders), 140 type bodies over self/other/missing references, enum and regex bodies x 18 comment/literal tails; huge-exponent numerals, deep nesting and megabyte inputs in isolated processes under a 2.5 GB cap; every errors.Format call site and every template row executed. No call may panic, kill the process or hang; every error must expose ErrCode()+Message(), a Position() inside the source it names, and render without panicking.",
+   text="Every string of <= 4 (thorough 5) symbols over a 26-symbol schema alphabet in each role (schema, user type under 7 usages: alias, property, item, key shortcut, allOf parent, type rule, or rule; enum rule, regex type, document in 2 modes and under 4 schemas) through every public method on fresh objects and in sequence; every truncation and every single-byte deletion, insertion and substitution at every offset of all corpus files (repository testdata + generator outputs); a grammar-directed product of 7 examples x 21 rule names x 46 hostile rule values x 6 annotation positions (+ second rules in both orders), 140 type bodies over self/other/missing references, enum and regex bodies x 18 comment/literal tails; huge-exponent numerals, deep nesting and megabyte inputs in isolated processes under a 2.5 GB cap; every errors.Format call site and every template row executed. No call may panic, kill the process or hang; every error must expose ErrCode()+Message(), a Position() inside the source it names, and render without panicking. Several calls on ONE object (stream read to its first error, then Check / Len / NextLexeme; sequences on enums, regexes, schemas).",
    note="Not asserted: API misuse that is not input-driven. Defects that depend on map iteration order are found deterministically only by C11's map-order scenarios. Known findings: infinite-recursion error is a bare Errorf (text pinned by a repository test); huge exponents are expanded into memory (OOM).",
    design="4/C07")
 
